@@ -74,6 +74,9 @@ impl Database {
         let columns = table_def.columns().to_vec();
 
         let schema = create_record_schema(&columns);
+        let auto_increment_col_idx = columns
+            .iter()
+            .position(|c| c.has_constraint(&crate::schema::Constraint::AutoIncrement));
 
         drop(catalog_guard);
 
@@ -160,6 +163,21 @@ impl Database {
             }
             let new_row_count = header.row_count().saturating_add(count as u64);
             header.set_row_count(new_row_count);
+            if let Some(ai_idx) = auto_increment_col_idx {
+                // explicit ids loaded in bulk must not be generated again later
+                let max_id = rows
+                    .iter()
+                    .filter_map(|r| match r.get(ai_idx) {
+                        Some(OwnedValue::Int(v)) if *v > 0 => Some(*v as u64),
+                        _ => None,
+                    })
+                    .max();
+                if let Some(max_id) = max_id {
+                    if max_id > header.auto_increment() {
+                        header.set_auto_increment(max_id);
+                    }
+                }
+            }
         }
 
         self.flush_wal_if_autocommit(file_manager, schema_name, table_name, table_id as u32)?;
